@@ -37,7 +37,7 @@ def run_validators(I, fdecl, value):
         elif isinstance(v, LibObj) and v.kind == "mm_oneof":
             ts = [I.as_bool(I.eq_term(value, c)) for c in v.choices]
             if not I.c.branch(z3.Or(*ts) if ts else False, "oneof-ok"):
-                I.raise_("ValidationError")
+                I.raise_(getattr(v, "bad_exc", None) or "ValidationError")
         else:
             raise Unsupported(f"validator {v!r}")
 
